@@ -16,6 +16,16 @@ func SpecEqualFold(a, b string) bool { panic("abstract spec function") }
 //@   trusted library contract
 //@   ensures spec: r == SpecEqualFold(a, b)
 
+// SpecContains is strings.Contains (abstract).
+func SpecContains(s string, sub string) bool { panic("abstract spec function") }
+
+//@ spec SpecContains abstract
+
+//@ func strings.Contains(s, substr) (r)
+//@   trusted library contract (pure), uninterpreted
+//@   modifies nothing
+//@   ensures def: r == SpecContains(s, substr)
+
 // ---- GEORADIUS / GEORADIUSBYMEMBER ... [STORE key] [STOREDIST key] (C18, C10) ------------------
 // georadiusGetKeys looks for the options from the sixth word of the command on (argument index
 // 4 here: a member or a unit can be called "store"), each takes the following word as its key,
